@@ -50,6 +50,14 @@ let () =
   try
     while true do
       let line = input_line stdin in
+      if String.length line > 8 && String.sub line 0 8 = "textput " then begin
+        (* textput <zero line hex> <p> <lines: hex,hex,...|-> <new lines: hex,hex,...>  -> hex of the file bytes *)
+        (match toks line with
+         | [_; z; p; ls; d] ->
+           let lines s = if s = "-" then [] else List.map (fun h -> bytes_of_hex (if h = "" then "-" else h)) (String.split_on_char ',' s) in
+           print_endline (hex_of_bytes (text_put_bytes (bytes_of_hex z) (lines ls) (nat_of_int (int_of_string p)) (lines d)))
+         | _ -> print_endline "?")
+      end else
       match String.split_on_char ';' line with
       | hd :: ops ->
         (match toks hd with
